@@ -267,6 +267,31 @@ def segLine (op : String) : String :=
       let feed := if feedOn then s!"{feedSum}:{fs.prime}" else "-"
       return s!"segs={nseg} total={total} sum={sum} small={small} medium={medium} feed={feed} content=ok{geo}"
     | _, _, _, _ => "bad-op"
+  | ["sp", a, b, k, l1] =>
+    -- what SievingPrimes::next() delivers after the first segment: the model's source is the table of the primes of
+    -- [165, isqrt(stop)] followed by ~0ull — the hypothesis of C01_loop_segments_correct, compared with the real object
+    match a.toNat?, b.toNat?, k.toNat?, kv l1 with
+    | some start, some stop, some kib, some l1 => Id.run do
+      let g := pgInitErat (floatCfg l1) start stop kib
+      if !g.hasNextSegment then return "pending=0 n=0 sum=0 last=0 order=ok"
+      let r := Nat.sqrt stop
+      let base := simpleSieve r
+      let mut ps : Array Nat := #[]
+      for p in [165 : r + 1] do
+        if base.get! p == 1 then ps := ps.push p
+      let psA := ps
+      let src : Nat → Nat := fun k => if k < psA.size then psA[k]! else umax
+      let fs := Feed.feedSegment src g.segmentLow g.segmentHigh {}
+      if fs.prime == umax then return s!"pending={umax} n=0 sum=0 last={umax} order=ok"
+      let mut n := 0
+      let mut sum := 0
+      let mut last := fs.prime
+      for i in [fs.fetched - 1 : psA.size] do
+        n := n + 1
+        sum := (sum + psA[i]!) % U64
+        last := psA[i]!
+      return s!"pending={fs.prime} n={n} sum={sum} last={last} order=ok"
+    | _, _, _, _ => "bad-op"
   | _ => "bad-op"
 
 partial def segLoop (h : IO.FS.Stream) : IO Unit := do
